@@ -401,16 +401,18 @@ def moveSheet (s : St) (source target : Name) : Except Err St :=
 
 /-! ## CopySheet -/
 
-/-- `CopySheet(from, to)` with Go `int` arguments -/
+/-- `CopySheet(from, to)` with Go `int` arguments.  `copySheet` reads the source worksheet, checks that
+the target is a worksheet too, and stores the copy under the target's part path (`getSheetXMLPath`). -/
 def copySheet (s : St) (frm to : Int) : Except Err St :=
   if frm < 0 ∨ to < 0 ∨ frm = to ∨ getSheetName s frm.toNat = [] ∨ getSheetName s to.toNat = [] then .error .sheetIdx else
+  if !Facts.C16.copyTargetByPartPath then .error .gap else
   let fromSheet := getSheetName s frm.toNat
   match workSheetReader s fromSheet with
   | .error e => .error e
   | .ok (_, w) =>
-    match getSheetID s (getSheetName s to.toNat) with
-    | none => .error .gap
-    | some toID => .ok { s with parts := partSet s.parts toID { w with sel := false } }
+    match workSheetReader s (getSheetName s to.toNat) with
+    | .error e => .error e
+    | .ok (p, _) => .ok { s with parts := partSet s.parts p { w with sel := false } }
 
 /-! ## SetSheetName -/
 
